@@ -3,6 +3,7 @@ package main
 import (
 	"go/token"
 	"go/types"
+	"strings"
 
 	"golang.org/x/tools/go/ssa"
 )
@@ -15,7 +16,7 @@ import (
 func init() {
 	register(&Rule{
 		Name:     "INDEXLOWER",
-		Doc:      "every slice/array access whose index is (a conversion of) a signed integer parameter and whose function tests that parameter against len(…) (a dominating bound check, or the grow-then-index idiom) is also dominated by a test that excludes negative values (`i < 0`, `i >= 0`, `i > c`, c >= -1) — or the parameter is unsigned; (b) a signed index parameter that is compared with an element count decoded from a container header (COUNTCMP's notion) is also compared with 0 somewhere in the function",
+		Doc:      "every slice/array access whose index is (a conversion of) a signed integer parameter and whose function tests that parameter against len(…) (a dominating bound check, or the grow-then-index idiom) is also dominated by a test that excludes negative values (`i < 0`, `i >= 0`, `i > c`, c >= -1) — or the parameter is unsigned; (b) a signed index — a parameter, or the integer of a caller-supplied path step (Path.int()) — that is compared with an element count decoded from a container header (COUNTCMP's notion) or with a running element counter (`cnt < idx`) is also compared with 0 somewhere in the function",
 		Configs:  "NP",
 		Floor:    map[string]int{"N": 2, "P": 2},
 		Controls: 1,
@@ -36,6 +37,83 @@ func paramRoot(v ssa.Value, d int) *ssa.Parameter {
 		return paramRoot(x.X, d+1)
 	}
 	return nil
+}
+
+// indexRoot: paramRoot, or the result of Path.int() — the integer of a path step supplied by the caller.
+func indexRoot(v ssa.Value, d int) ssa.Value {
+	if p := paramRoot(v, d); p != nil {
+		return p
+	}
+	if d > 4 {
+		return nil
+	}
+	switch x := v.(type) {
+	case *ssa.Convert:
+		return indexRoot(x.X, d+1)
+	case *ssa.Call:
+		if cal := x.Call.StaticCallee(); cal != nil && cal.Name() == "int" && cal.Signature.Recv() != nil && strings.HasSuffix(typeShort(cal.Signature.Recv().Type()), "generic.Path") {
+			return x
+		}
+	}
+	return nil
+}
+
+// onlyMatched: every use of the index (through conversions) is an equality test or an ordered
+// comparison with a header count — it never enters arithmetic, a loop bound or an index expression.
+func onlyMatched(v ssa.Value) bool {
+	ok := true
+	var visit func(x ssa.Value, d int)
+	visit = func(x ssa.Value, d int) {
+		if x.Referrers() == nil || d > 3 {
+			return
+		}
+		for _, r := range *x.Referrers() {
+			switch u := r.(type) {
+			case *ssa.Convert:
+				visit(u, d+1)
+			case *ssa.DebugRef:
+			case *ssa.BinOp:
+				switch u.Op {
+				case token.EQL, token.NEQ:
+				case token.LSS, token.LEQ, token.GTR, token.GEQ:
+					if !(headerCount(u.X, 0) || headerCount(u.Y, 0)) {
+						ok = false
+					}
+				default:
+					ok = false
+				}
+			default:
+				ok = false
+			}
+		}
+	}
+	visit(v, 0)
+	return ok
+}
+
+// zeroCounter: a loop-carried element counter (φ of the constant 0 and itself + 1): `cnt < idx`.
+func zeroCounter(v ssa.Value) bool {
+	ph, ok := v.(*ssa.Phi)
+	if !ok {
+		return false
+	}
+	zero, inc := false, false
+	for _, e := range ph.Edges {
+		if k, isC := constInt(e); isC && k == 0 {
+			zero = true
+		}
+		if bo, ok := e.(*ssa.BinOp); ok && bo.Op == token.ADD && (bo.X == ssa.Value(ph) || bo.Y == ssa.Value(ph)) {
+			inc = true
+		}
+	}
+	return zero && inc
+}
+
+func indexName(v ssa.Value) string {
+	if p, ok := v.(*ssa.Parameter); ok {
+		return p.Name()
+	}
+	return "path.int()"
 }
 
 func mentionsLen(v ssa.Value, d int) bool {
@@ -67,11 +145,12 @@ func runIndexLower(rc *RuleCtx) {
 				if !ok || (bo.Op != token.GEQ && bo.Op != token.LSS && bo.Op != token.GTR && bo.Op != token.LEQ) {
 					continue
 				}
-				var p *ssa.Parameter
-				if headerCount(bo.Y, 0) {
-					p = paramRoot(bo.X, 0)
-				} else if headerCount(bo.X, 0) {
-					p = paramRoot(bo.Y, 0)
+				// the index: a signed int parameter, or the integer of a caller-supplied path step (Path.int())
+				var p ssa.Value
+				if headerCount(bo.Y, 0) || zeroCounter(bo.Y) {
+					p = indexRoot(bo.X, 0)
+				} else if headerCount(bo.X, 0) || zeroCounter(bo.X) {
+					p = indexRoot(bo.Y, 0)
 				}
 				if p == nil {
 					continue
@@ -89,9 +168,9 @@ func runIndexLower(rc *RuleCtx) {
 							continue
 						}
 						var other ssa.Value
-						if paramRoot(o.X, 0) == p {
+						if indexRoot(o.X, 0) == p {
 							other = o.Y
-						} else if paramRoot(o.Y, 0) == p {
+						} else if indexRoot(o.Y, 0) == p {
 							other = o.X
 						} else {
 							continue
@@ -104,9 +183,15 @@ func runIndexLower(rc *RuleCtx) {
 						}
 					}
 				}
-				rc.verdict(lower, fn, "element index "+p.Name(), bo.Pos(), map[bool]string{
+				if !lower && onlyMatched(p) {
+					// the index is never used to address anything: it is only compared with the count and
+					// matched by equality against a running (non-negative) position — a negative value matches nothing
+					rc.ok(fn, "element index "+indexName(p), bo.Pos(), "the index is only matched by equality against a running position; a negative value matches no element", false)
+					continue
+				}
+				rc.verdict(lower, fn, "element index "+indexName(p), bo.Pos(), map[bool]string{
 					true:  "the signed element index is bounded on both sides",
-					false: "the signed element index `" + p.Name() + "` is compared with the container's element count but never with 0: a negative index passes the bound check and addresses element 0 (or worse) instead of being rejected"}[lower], true)
+					false: "the signed element index `" + indexName(p) + "` is compared with the container's element count but never with 0: a negative index passes the bound check and addresses element 0 (or worse) instead of being rejected"}[lower], true)
 			}
 		}
 		for _, b := range fn.Blocks {
